@@ -339,6 +339,8 @@ def h_f64_round(ex, name, args, path, depth, caller):
         t = z3.ToReal(z3.If(x >= 0, z3.ToInt(x), -z3.ToInt(-x)))
     elif fn == "floor":
         t = z3.ToReal(z3.ToInt(x))
+    elif fn == "fract":
+        t = x - z3.ToReal(z3.If(x >= 0, z3.ToInt(x), -z3.ToInt(-x)))
     elif fn == "round":   # half away from zero
         t = z3.ToReal(z3.If(x >= 0, z3.ToInt(x + z3.Q(1, 2)), -z3.ToInt(-x + z3.Q(1, 2))))
     else:
@@ -626,7 +628,7 @@ def install(ex):
     add(r"^core::option::Option::<.*>::(is_some|is_none)$", h_option_is_some)
     add(r"^(core::result::)?Result::<.*>::unwrap$", h_result_unwrap)
     add(r"^(core::|std::)?f64::<impl f64>::(is_infinite|is_nan)$", h_f64_pred)
-    add(r"^(core::|std::)?f64::<impl f64>::(round|trunc|abs|floor)$", h_f64_round)
+    add(r"^(core::|std::)?f64::<impl f64>::(round|trunc|abs|floor|fract)$", h_f64_round)
     add(r"^<f64 as (Mul|Add|Sub|Div)<&f64>>::(mul|add|sub|div)$", h_f64_mul_ref)
     add(r"^<&f64 as (Mul|Add|Sub|Div)<(&)?f64>>::(mul|add|sub|div)$", h_f64_mul_ref)
     add(r"^TypeId::of::<.*>$", h_typeid_of)
@@ -660,6 +662,7 @@ def install(ex):
     install_rules(ex)
     install_checked(ex)
     install_chrono2(ex)
+    install_text(ex)
 
 
 # ------------------------------------------------------------------ chrono: dates, times, zones
@@ -1785,3 +1788,319 @@ def install_chrono2(ex):
     add(r"^(chrono::)?NaiveDate::checked_(add|sub)_signed$", h_date_checked_signed)
     add(r"^(chrono::)?NaiveDate::and_time$", h_date_and_time)
     add(r"^(chrono::)?NaiveTime::from_num_seconds_from_midnight$", h_time_from_secs)
+
+
+# ------------------------------------------------------------------ line splitting of a structured text (Session::set_text)
+def h_regex_new2(ex, name, args, path, depth, caller):
+    pat = deref(args[0])
+    if isinstance(pat, StrV) and pat.is_concrete() and pat.t in LINE_PATTERNS:
+        # assumption (stated in the evidence): Regex::new succeeds on this constant, valid pattern
+        yield Outcome("return", path, EnumV("Result", "Ok", [RegexV(pat.t)]))
+        return
+    raise Unsupported("Regex::new with a pattern other than the line-separator pattern: %r" % (pat,))
+
+
+LINE_PATTERNS = ("\\r\\n|\\n", "\r\n|\n")
+
+
+def split_text(text, sep):
+    parts = []
+    curp = text.lines[0]
+    for i in range(len(text.lines) - 1):
+        s_ = text.seps[i]
+        nxt = text.lines[i + 1]
+        if sep == "\n":
+            parts.append(str_concat(curp, StrV("\r")) if s_ == "\r\n" else curp)
+            curp = nxt
+        elif sep == "\r\n":
+            if s_ == "\r\n":
+                parts.append(curp)
+                curp = nxt
+            else:
+                curp = str_concat(str_concat(curp, StrV("\n")), nxt)
+        else:
+            raise Unsupported("split on %r" % sep)
+    parts.append(curp)
+    return parts
+
+
+def h_regex_split(ex, name, args, path, depth, caller):
+    re_, text = deref(args[0]), cur(path, args[1])
+    if isinstance(re_, RegexV) and isinstance(text, TextV):
+        if re_.pattern not in ("\\r\\n|\\n", "\r\n|\n"):
+            raise Unsupported("Regex::split with pattern %r (only the line-separator pattern is modelled)" % re_.pattern)
+        # regex semantics of \r\n|\n on a text whose lines contain neither CR nor LF: one part per line
+        yield Outcome("return", path, IterV(list(text.lines), 0, False, True))
+        return
+    yield Outcome("return", path, OpaqueV("Split"))
+
+
+def h_str_lines(ex, name, args, path, depth, caller):
+    text = cur(path, args[0])
+    if isinstance(text, TextV):
+        # str::lines strips "\n" and "\r\n" and yields no final empty line
+        last = text.lines[-1].term()
+        pe = path.add(last == z3.StringVal(""))
+        if ex.feasible(pe):
+            yield Outcome("return", pe, IterV(list(text.lines[:-1]), 0, False, True))
+        pn = path.add(last != z3.StringVal(""))
+        if ex.feasible(pn):
+            yield Outcome("return", pn, IterV(list(text.lines), 0, False, True))
+        return
+    yield Outcome("return", path, OpaqueV("Lines"))
+
+
+def h_str_contains_text(ex, name, args, path, depth, caller):
+    text, pat = cur(path, args[0]), deref(args[1])
+    if isinstance(text, TextV):
+        if not (isinstance(pat, StrV) and pat.is_concrete() and pat.t in ("\n", "\r\n", "\r")):
+            raise Unsupported("contains(%r) on a structured text" % (pat,))
+        if pat.t == "\n":
+            yield Outcome("return", path, z3.BoolVal(len(text.seps) > 0))
+        else:
+            yield Outcome("return", path, z3.BoolVal(any(s_ == "\r\n" for s_ in text.seps)))
+        return
+    return (yield from h_str_pred(ex, name, args, path, depth, caller))
+
+
+def h_str_split_text(ex, name, args, path, depth, caller):
+    text, pat = cur(path, args[0]), deref(args[1])
+    if isinstance(text, TextV):
+        if not (isinstance(pat, StrV) and pat.is_concrete()):
+            raise Unsupported("split with a symbolic separator on a structured text")
+        yield Outcome("return", path, IterV(split_text(text, pat.t), 0, False, True))
+        return
+    yield Outcome("return", path, OpaqueV("Split"))
+
+
+def h_generic_iter_map(ex, name, args, path, depth, caller):
+    it = deref(args[0])
+    if isinstance(it, IterV):
+        return h_iter_map(ex, name, args, path, depth, caller)
+    return ex.ret(path, OpaqueV("Map"))
+
+
+def h_generic_collect(ex, name, args, path, depth, caller):
+    it = deref(args[0])
+    if isinstance(it, IterV):
+        return ex.ret(path, VecV(it.items[it.idx:]))
+    return ex.ret(path, OpaqueV("collected"))
+
+
+def install_text(ex):
+    def add(rx, fn):
+        ex.handlers.insert(0, (re.compile(rx), fn))
+
+    add(r"^regex::Regex::new$", h_regex_new2)
+    add(r"^regex::Regex::split$", h_regex_split)
+    add(r"^core::str::<impl str>::lines$", h_str_lines)
+    add(r"^core::str::<impl str>::contains::<&str>$", h_str_contains_text)
+    add(r"^core::str::<impl str>::split::<&str>$", h_str_split_text)
+    add(r"^<(regex::Split<.*>|regex::regex::string::Split<.*>|Lines<.*>|core::str::Lines<.*>|core::str::Split<.*>|Split<.*>) as Iterator>::map::<.*>$", h_generic_iter_map)
+    add(r"^<core::iter::Map<(regex::Split|regex::regex::string::Split|Lines|core::str::Lines|core::str::Split|Split)<.*>, .*> as Iterator>::collect::<Vec<.*>>$", h_generic_collect)
+
+
+# ------------------------------------------------------------------ rendering of floats as decimal text (C07)
+# Contract models of core::fmt's float printing (the digit generation itself - grisu/dragon - is assumed correct):
+#   format!("{:.N}", v), v >= 0  ->  the decimal digits of R = round-half-even(v * 10^N), with N fraction digits
+#   format!("{}", v) / v.to_string(), v >= 0 with at most FMT_MAX_FRACT fraction digits -> shortest exact decimal text
+FMT_MAX_INT_DIGITS = [7]
+FMT_MAX_FRACT = [3]
+
+
+def round_half_even(y):
+    f = z3.ToInt(y)
+    fr = y - z3.ToReal(f)
+    return z3.If(fr < z3.Q(1, 2), f, z3.If(fr > z3.Q(1, 2), f + 1, z3.If(f % 2 == 0, f, f + 1)))
+
+
+def digits_of(r, n):
+    """the n low decimal digits of the integer term r, most significant first"""
+    return [("d", (r / (10 ** i)) % 10) for i in reversed(range(n))]
+
+
+def int_digit_range(r, l, n):
+    """r (scaled by 10^n) has exactly l integer digits"""
+    lo = 0 if l == 1 else 10 ** (l - 1 + n)
+    return z3.And(r >= lo, r < 10 ** (l + n))
+
+
+def render_fixed(ex, path, v, n):
+    """outcomes (path, DecStrV) of format!("{:.n}", v) for v >= 0"""
+    r = round_half_even(v * (10 ** n))
+    for l in range(1, FMT_MAX_INT_DIGITS[0] + 1):
+        p = path.add(int_digit_range(r, l, n))
+        if not ex.feasible(p):
+            continue
+        ds = digits_of(r, l + n)
+        chars = ds[:l] + ([("c", ".")] + ds[l:] if n > 0 else [])
+        yield p, DecStrV(chars)
+    p = path.add(r >= 10 ** (FMT_MAX_INT_DIGITS[0] + n))
+    if ex.feasible(p):
+        raise Unsupported("a rendered number with more than %d integer digits (outside the stated bound)" % FMT_MAX_INT_DIGITS[0])
+
+
+def render_shortest(ex, path, v):
+    """outcomes of format!("{}", v) for v >= 0 with at most FMT_MAX_FRACT fraction digits"""
+    for k in range(0, FMT_MAX_FRACT[0] + 1):
+        y = v * (10 ** k)
+        r = z3.ToInt(y)
+        exact = z3.And(z3.ToReal(r) == y, r % 10 != 0 if k > 0 else z3.BoolVal(True))
+        for l in range(1, FMT_MAX_INT_DIGITS[0] + 1):
+            p = path.add(z3.And(exact, int_digit_range(r, l, k)))
+            if not ex.feasible(p):
+                continue
+            ds = digits_of(r, l + k)
+            yield p, DecStrV(ds[:l] + ([("c", ".")] + ds[l:] if k > 0 else []))
+
+
+def h_fmt_arg(ex, name, args, path, depth, caller):
+    if "from_usize" in name:
+        yield Outcome("return", path, FmtArgV("usize", deref(args[0])))
+    else:
+        kind = re.search(r"::new_(\w+)::", name).group(1)
+        yield Outcome("return", path, FmtArgV(kind, deref(args[0])))
+
+
+def h_fmt_arguments_new(ex, name, args, path, depth, caller):
+    arr = deref(args[1]) if len(args) > 1 else None
+    items = []
+    if arr is not None:
+        raw = arr.items if isinstance(arr, VecV) else getattr(arr, "f", None)
+        if raw is None:
+            raise Unsupported("format arguments %r" % (arr,))
+        items = [deref(x) for x in raw]
+    yield Outcome("return", path, FmtArgsV(deref(args[0]), items))
+
+
+def h_fmt_format(ex, name, args, path, depth, caller):
+    a = deref(args[0])
+    if not isinstance(a, FmtArgsV):
+        yield Outcome("return", path, OpaqueV("formatted"))
+        return
+    kinds = [(x.kind if isinstance(x, FmtArgV) else "?") for x in a.args]
+    if kinds == ["display", "usize"] and isinstance(a.args[0].v, FloatV):
+        v, n = a.args[0].v, conc_int(a.args[1].v)
+        ex.fmt_log.append(("fixed", v.t, n))
+        for p, s in render_fixed(ex, path.add(v.t >= 0), v.t, n):
+            yield Outcome("return", p, s)
+        return
+    if kinds == ["display"] and isinstance(a.args[0].v, FloatV):
+        v = a.args[0].v
+        ex.fmt_log.append(("shortest", v.t, None))
+        for p, s in render_shortest(ex, path.add(v.t >= 0), v.t):
+            yield Outcome("return", p, s)
+        return
+    yield Outcome("return", path, OpaqueV("formatted"))
+
+
+def h_f64_to_string(ex, name, args, path, depth, caller):
+    v = deref(args[0])
+    ex.fmt_log.append(("shortest", v.t, None))
+    for p, s in render_shortest(ex, path.add(v.t >= 0), v.t):
+        yield Outcome("return", p, s)
+
+
+def h_identity0(ex, name, args, path, depth, caller):
+    yield Outcome("return", path, args[0])
+
+
+def h_decstr_len(ex, name, args, path, depth, caller):
+    v = cur(path, args[0])
+    if isinstance(v, DecStrV):
+        yield Outcome("return", path, IntV(len(v.chars), 64, False))
+        return
+    return (yield from h_string_len(ex, name, args, path, depth, caller))
+
+
+def h_str_find_char(ex, name, args, path, depth, caller):
+    v, c = cur(path, args[0]), deref(args[1])
+    if not isinstance(v, DecStrV):
+        raise Unsupported("str::find on %r" % (v,))
+    code = conc_int(c)
+    if 48 <= code <= 57:
+        raise Unsupported("searching a digit in a rendered number")
+    for i, ch in enumerate(v.chars):
+        if ch[0] == "c" and ord(ch[1]) == code:
+            yield Outcome("return", path, some(IntV(i, 64, False)))
+            return
+    yield Outcome("return", path, NONE)
+
+
+def char_value(ch):
+    return IntV(ord(ch[1]), 32, False) if ch[0] == "c" else IntV(48 + ch[1], 32, False)
+
+
+def h_str_chars(ex, name, args, path, depth, caller):
+    v = cur(path, args[0])
+    if not isinstance(v, DecStrV):
+        raise Unsupported("str::chars on %r" % (v,))
+    yield Outcome("return", path, CharsV(v.chars, 0))
+
+
+def h_chars_nth(ex, name, args, path, depth, caller):
+    it, n = deref(args[0]), conc_int(deref(args[1]))
+    i = it.idx + n
+    yield Outcome("return", path, some(char_value(it.chars[i])) if i < len(it.chars) else NONE)
+
+
+def h_chars_skip(ex, name, args, path, depth, caller):
+    it, n = deref(args[0]), conc_int(deref(args[1]))
+    yield Outcome("return", path, CharsV(it.chars, min(len(it.chars), it.idx + n)))
+
+
+def h_chars_all(ex, name, args, path, depth, caller):
+    it = deref(args[0])
+    f = closure_fn(ex, name)
+    states = [(path, [])]
+    for ch in it.chars[it.idx:]:
+        nxt = []
+        for p, acc in states:
+            for o in ex.run(f, [args[1], char_value(ch)], p, depth + 1):
+                if o.kind == "panic":
+                    yield o
+                else:
+                    nxt.append((o.path, acc + [o.value if not isinstance(o.value, IntV) else o.value.t != 0]))
+        states = nxt
+    for p, acc in states:
+        yield Outcome("return", p, z3.And(acc) if acc else z3.BoolVal(True))
+
+
+def h_string_push_char(ex, name, args, path, depth, caller):
+    cur_s = cur(path, args[0])
+    ch = deref(args[1])
+    if not isinstance(cur_s, StrV):
+        raise Unsupported("String::push on %r" % (cur_s,))
+    t = z3.simplify(ch.t) if not isinstance(ch.t, int) else ch.t
+    if isinstance(t, int) or z3.is_int_value(t):
+        add = StrV(chr(t if isinstance(t, int) else t.as_long()))
+    else:
+        add = StrV(z3.StrFromCode(ch.t))
+    p2, wr = writeback(path, args[0], str_concat(cur_s, add), "String")
+    yield Outcome("return", p2, UNIT, writes=wr)
+
+
+def h_option_unwrap_or(ex, name, args, path, depth, caller):
+    for p, is_some, payload in option_cases(ex, path, args[0]):
+        yield Outcome("return", p, payload if is_some else args[1])
+
+
+def install_fmt(ex):
+    """only for the specs about rendering: the other specs keep formatting opaque"""
+    def add(rx, fn):
+        ex.handlers.insert(0, (re.compile(rx), fn))
+
+    ex.fmt_log = []
+    add(r"^core::fmt::rt::Argument::<'_>::(new_\w+::<.*>|from_usize)$", h_fmt_arg)
+    add(r"^Arguments::<'_>::new::<.*>$", h_fmt_arguments_new)
+    add(r"^alloc::fmt::format$", h_fmt_format)
+    add(r"^must_use::<.*>$", h_identity0)
+    add(r"^<f64 as ToString>::to_string$", h_f64_to_string)
+    add(r"^(alloc::string::)?String::len$|^core::str::<impl str>::len$", h_decstr_len)
+    add(r"^core::str::<impl str>::find::<char>$", h_str_find_char)
+    add(r"^core::str::<impl str>::chars$", h_str_chars)
+    add(r"^<Chars<'_> as Iterator>::nth$", h_chars_nth)
+    add(r"^<Chars<'_> as Iterator>::skip$", h_chars_skip)
+    add(r"^<Skip<Chars<'_>> as Iterator>::all::<.*>$", h_chars_all)
+    add(r"^(alloc::string::)?String::push$", h_string_push_char)
+    add(r"^core::option::Option::<.*>::unwrap_or$", h_option_unwrap_or)
